@@ -425,14 +425,35 @@ def Mapping.inverse (m : Mapping) : Option Mapping :=
 
 /-! ## remapEntries -/
 
-/-- the loop of `Manifest.remapEntries` over the products (`dummy` versions, which make eups declare a product,
-are outside the model) -/
+/-- the loop of `Manifest.remapEntries` over the products: the list it leaves (the products it declares on the way
+are `dummyDeclares`) -/
 def remapDeps (m : Mapping) (flavor : Str) (deps : List Dep) : List Dep :=
   deps.filterMap fun p =>
     match m.apply p.product p.version flavor with
     | (_, none) => none
     | (pn, some vn) =>
       if (pn, vn) != (p.product, p.version) then some (mkDep pn vn none none none none false false []) else some p
+
+def sDummy : Str := [100, 117, 109, 109, 121]                 -- dummy
+
+/-- `Eups.declare` accepts the product name: no character outside `[a-zA-Z_0-9]` (otherwise it raises, and
+`remapEntries` prints the exception and goes on) -/
+def legalName (n : Str) : Bool := n.all fun c => Str.isAlnum c || c == 95
+
+/-- the `dummy` branch of `Manifest.remapEntries`: an entry that the mapping *changes* into version `dummy` makes eups
+declare that product (`eups.declare(name, "dummy", productDir="none", tablefile="none")`) unless `findProduct` already
+finds it.  `known` = the products for which `findProduct(name, "dummy")` succeeds; the result lists the products
+declared, in order (a product declared for one entry is found for the next; a name `Eups.declare` refuses is not
+declared, the exception is printed and swallowed). -/
+def dummyDeclares (m : Mapping) (flavor : Str) : List Str → List Dep → List Str
+  | _, [] => []
+  | known, p :: rest =>
+    match m.apply p.product p.version flavor with
+    | (pn, some vn) =>
+      if (pn, vn) != (p.product, p.version) && vn == sDummy && !known.contains pn && legalName pn then
+        pn :: dummyDeclares m flavor (known ++ [pn]) rest
+      else dummyDeclares m flavor known rest
+    | (_, none) => dummyDeclares m flavor known rest
 
 /-- split at the first `:` as `^([^:]+)(?::(.*))?` does; `none` = the word starts with `:` (no match) -/
 def splitColon (w : Str) : Option (Str × Option Str) :=
